@@ -34,6 +34,7 @@ TARGET = os.path.join(common.WORK, "kani_x64_target")
 CEX_TARGET = os.path.join(common.WORK, "kani_x64_cex_target")
 NATIVE_TARGET = os.path.join(common.WORK, "kani_x64_native")
 LOGS = os.path.join(common.WORK, "kani_x64_logs")
+CACHE = os.path.join(common.WORK, "kani_x64_cache")
 LLVM_MC = shutil.which("llvm-mc-14") or shutil.which("llvm-mc")
 
 HARNESS_TIMEOUT = int(os.environ.get("C07_HARNESS_TIMEOUT", "2400"))
@@ -80,6 +81,42 @@ def _limit_cex():
     # only failing units are re-run this way, a few at a time
     m = max(2 * mem_bytes(), 24 << 30)
     resource.setrlimit(resource.RLIMIT_AS, (m, m))
+
+
+def content_hash(crate, asm_src):
+    """Hash of everything a harness verdict depends on: the generated crate (harnesses, decoder,
+    comparison, Cargo.toml/lock), the dora-asm sources it is compiled against, the Kani/CBMC
+    versions and the flags.  Results are reused only under an identical hash (content-addressed;
+    `C07_NO_CACHE=1` disables it); nothing else is carried from one run to the next."""
+    import hashlib
+    h = hashlib.sha256()
+    files = []
+    for root in (os.path.join(crate, "src"), os.path.join(asm_src, "src")):
+        for dp, _, fs in os.walk(root):
+            for f in fs:
+                files.append(os.path.join(dp, f))
+    files += [os.path.join(crate, "Cargo.toml"), os.path.join(crate, "Cargo.lock"), os.path.join(asm_src, "Cargo.toml")]
+    for f in sorted(files):
+        if os.path.isfile(f):
+            h.update(f.encode() + b"\0")
+            h.update(open(f, "rb").read())
+            h.update(b"\0")
+    try:
+        v = subprocess.run(["cargo", "kani", "--version"], stdout=subprocess.PIPE, stderr=subprocess.STDOUT, text=True, timeout=120).stdout
+    except Exception:
+        v = "?"
+    h.update(v.encode())
+    h.update(" ".join(KANI_FLAGS + KANI_RUN_FLAGS).encode())
+    return h.hexdigest()
+
+
+def cache_path(base, harness, kind="run"):
+    import hashlib
+    return os.path.join(CACHE, hashlib.sha256((base + "|" + harness + "|" + kind).encode()).hexdigest()[:40] + ".log")
+
+
+def conclusive(r):
+    return r["verdict"] is not None and not r["error"] and r["errors"] == 0
 
 
 def kani_build(crate, target):
@@ -575,8 +612,20 @@ def main(tier):
         if _dir_size(TARGET) > 3 << 30:
             shutil.rmtree(TARGET, ignore_errors=True)
         binary = native_build(CRATE)
-        build_s = kani_build(CRATE, TARGET)
-        common.log("[C07] kani build %.1fs" % build_s)
+        os.makedirs(CACHE, exist_ok=True)
+        use_cache = os.environ.get("C07_NO_CACHE") != "1"
+        base = content_hash(CRATE, manifest["asm_src"])
+        cached = {}
+        if use_cache:
+            for g in groups:
+                cp = cache_path(base, g["harness"])
+                if os.path.exists(cp):
+                    cached[g["name"]] = cp
+        build_s = 0.0
+        if len(cached) < len(groups):
+            build_s = kani_build(CRATE, TARGET)
+        common.log("[C07] kani build %.1fs; %d of %d harness results reused (identical content hash %s)" % (
+            build_s, len(cached), len(groups), base[:12]))
 
         cost = {"branch": 0, "rl": 1, "mem": 2, "plain": 3}
         order = sorted(groups, key=lambda g: (cost.get(g["cat"], 9), -len(g["units"])))
@@ -585,15 +634,26 @@ def main(tier):
 
         def work(g):
             log = os.path.join(LOGS, g["harness"] + ".log")
+            if g["name"] in cached:
+                shutil.copyfile(cached[g["name"]], log)
+                r = parse_log(open(log, errors="replace").read())
+                m = re.search(r"^#C07 wall_s=([\d.]+)", open(log, errors="replace").read(), re.M)
+                r["rc"], r["wall_s"], r["cached"] = "cached", float(m.group(1)) if m else 0.0, True
+                return g, r
             rc, wall = kani_run(CRATE, TARGET, g["harness"], log)
             r = parse_log(open(log, errors="replace").read())
-            r["rc"], r["wall_s"] = rc, round(wall, 1)
+            r["rc"], r["wall_s"], r["cached"] = rc, round(wall, 1), False
+            if use_cache and rc != "timeout" and conclusive(r):
+                with open(log, "a") as f:
+                    f.write("\n#C07 wall_s=%.1f\n" % wall)
+                shutil.copyfile(log, cache_path(base, g["harness"]))
             return g, r
 
         with concurrent.futures.ThreadPoolExecutor(max_workers=j) as ex:
             for g, r in ex.map(work, order):
                 results[g["name"]] = r
-                common.log("[C07] %-40s %6.1fs rc=%s %s" % (g["harness"], r["wall_s"], r["rc"], r["verdict"]))
+                common.log("[C07] %-40s %6.1fs rc=%s %d/%d units ok" % (
+                    g["harness"], r["wall_s"], r["rc"], sum(1 for u in g["units"] if r["units"].get(u) == "SUCCESS"), len(g["units"])))
 
         # ---- classify ------------------------------------------------------------------
         inconclusive = []
@@ -651,15 +711,24 @@ def main(tier):
                 cman = gen.generate(tier, CEX_CRATE)
             finally:
                 del os.environ["C07_ONLY_UNITS"]
-            kani_build(CEX_CRATE, CEX_TARGET)
             cgroups = {g["units"][0]: g for g in cman["groups"]}
+            cex_cached = {un: cache_path(base, un, "cex") for _, un in failing}
+            cex_cached = {un: cp for un, cp in cex_cached.items() if use_cache and os.path.exists(cp)}
+            if len(cex_cached) < len(failing):
+                kani_build(CEX_CRATE, CEX_TARGET)
 
             def cex(item):
                 g, un = item
                 cg = cgroups[un]
                 log = os.path.join(LOGS, "cex_" + cg["harness"] + ".log")
+                if un in cex_cached:
+                    shutil.copyfile(cex_cached[un], log)
+                    return un, cg, "cached", open(log, errors="replace").read()
                 rc, wall = kani_run(CEX_CRATE, CEX_TARGET, cg["harness"], log, playback=True)
-                return un, cg, rc, open(log, errors="replace").read()
+                text = open(log, errors="replace").read()
+                if use_cache and rc != "timeout" and parse_playback(text).get("C07:m:" + un) is not None:
+                    shutil.copyfile(log, cache_path(base, un, "cex"))
+                return un, cg, rc, text
 
             with concurrent.futures.ThreadPoolExecutor(max_workers=max(1, min(j // 2, len(failing)))) as ex:
                 for un, cg, rc, text in ex.map(cex, failing):
@@ -729,6 +798,7 @@ def main(tier):
             "spec_entries_without_method": manifest["spec_entries_without_method"],
             "restricted_to": manifest.get("restricted_to") or None,
             "harnesses": len(groups),
+            "harness_results_reused_from_content_cache": sum(1 for r in results.values() if r.get("cached")),
             "failing_units": [u for _, u in failing],
             "refusal_only_units_all_refused": refusal_only_ok,
             "counterexamples": cex_info,
